@@ -336,6 +336,31 @@ theorem retry_then_success (db : Db) (plans : List (Nat → Bool)) (evs : List E
   · rw [h2]; exact insertBatch_idempotent db evs h
   · rw [h2]
 
+/-- **a stored version — visible or hidden by a deletion request — keeps every older or equally old version of its
+    address out**: the upsert looks at the `events` row only, tombstones play no part.  (A reopen is the identity, so
+    this holds across restarts: what seed C14-H breaks by physically removing hidden rows at start-up.) -/
+theorem older_version_never_stored (db : Db) (p : Params) (old : ERow)
+    (h : db.events.find? (fun r => r.key == p.row.key) = some old) (hle : p.row.createdAt ≤ old.createdAt) :
+    db.insertOne p = db := by
+  unfold Db.insertOne
+  rw [h]
+  have : upsertReplaces old p.row = false := by
+    unfold upsertReplaces
+    have : ¬ old.createdAt < p.row.createdAt := by omega
+    simp [this]
+  simp [this]
+
+/-- the same event again (same id) is never written either -/
+theorem same_id_never_rewritten (db : Db) (p : Params) (old : ERow)
+    (h : db.events.find? (fun r => r.key == p.row.key) = some old) (hid : old.id = p.row.id) :
+    db.insertOne p = db := by
+  unfold Db.insertOne
+  rw [h]
+  have : upsertReplaces old p.row = false := by
+    unfold upsertReplaces
+    simp [hid]
+  simp [this]
+
 /-! non-vacuity: the example batch of C14.lean needs 18 driver calls; failing the 9th reports an error and leaves
     the database empty, failing none stores the batch -/
 example : ({} : Db).calls exBatch = 18 := by decide
